@@ -12,6 +12,7 @@ from sa.core import rule, AnalysisError
 from sa.pyindex import get_module, dotted, src, calls_in, kwarg, try_fold
 from sa import flow, stubs
 from refs import cpython312 as REF
+from rules import _util_c16c19 as U
 
 TECHNIQUE = ("static analysis: operator/dunder table extraction checked "
              "against CPython's opcode tables; static model of stub argument "
@@ -162,6 +163,81 @@ def r14_2(ctx):
               f"{helper} must pop (x, y) and forward (state, name, x, y) to {callee}")
 
 
+def _binop_order(ctx, vu, fn):
+  """The (left, right, method) triples _call_binop_on_bindings tries, in order.
+
+  The list the dispatch loop walks is *evaluated* path by path
+  (rules/_util_c16c19.ListPaths): built in place with append / insert(0) /
+  reverse under `if`s, or returned by a module-local helper with early
+  returns.  With x, y, name the operand/operator parameters and r the local
+  bound to slots.REVERSE_NAME_MAPPING.get(name), every path must yield
+    r falsy                        -> [(x, y, name)]
+    r truthy, _overrides(..) true  -> [(y, x, r), (x, y, name)]
+    r truthy, _overrides(..) false -> [(x, y, name), (y, x, r)]
+  where _overrides(..) is `_overrides(y.data.cls, x.data.cls, r)`."""
+  params = [a.arg for a in fn.args.args]
+  if len(params) < 4:
+    raise AnalysisError("_call_binop_on_bindings: signature changed")
+  name_p, x_p, y_p = params[1], params[2], params[3]
+  stores = {}
+  for n in ast.walk(fn):
+    if isinstance(n, ast.Name) and isinstance(n.ctx, (ast.Store, ast.Del)):
+      stores[n.id] = stores.get(n.id, 0) + 1
+  if any(stores.get(p) for p in (name_p, x_p, y_p)):
+    raise AnalysisError("_call_binop_on_bindings re-binds its operand parameters")
+  rvars = [n.targets[0].id for n in fn.body if isinstance(n, ast.Assign)
+           and len(n.targets) == 1 and isinstance(n.targets[0], ast.Name)
+           and src(n.value) == f"slots.REVERSE_NAME_MAPPING.get({name_p})"
+           and stores.get(n.targets[0].id) == 1]
+  if len(rvars) != 1:
+    raise AnalysisError("_call_binop_on_bindings: the local holding the reflected "
+                        "method name was not identified")
+  r_v = rvars[0]
+  loops = [st for st in fn.body if isinstance(st, ast.For) and any(
+      isinstance(c.func, ast.Attribute) and c.func.attr == "get_attribute"
+      for c in calls_in(st))]
+  if len(loops) != 1:
+    raise AnalysisError("_call_binop_on_bindings: the loop that looks the operator "
+                        "methods up was not found")
+  loop = loops[0]
+  try:
+    results = U.ListPaths(vu).at_loop(fn, loop)
+  except U.NotUnderstood as e:
+    raise AnalysisError(f"_call_binop_on_bindings: the list of operand orders is built "
+                        f"in a way that is not understood: {e}") from e
+  if not results:
+    raise AnalysisError("_call_binop_on_bindings: no path reaches the dispatch loop")
+  fwd, refl = (x_p, y_p, name_p), (y_p, x_p, r_v)
+  ov = f"_overrides({y_p}.data.cls, {x_p}.data.cls, {r_v})"
+  problems, shown = [], []
+  for path, val in results:
+    conds = dict(path)
+    if val[0] != "list" or not all(it[0] == "tuple" for it in val[1]):
+      raise AnalysisError("_call_binop_on_bindings: the dispatch loop does not walk a "
+                          f"list of tuples on the path {list(path)}")
+    got = [it[1] for it in val[1]]
+    r, o = conds.get(r_v), conds.get(ov)
+    case = f"{r_v}={r}, overrides={o}"
+    shown.append({"when": case, "order": [list(t) for t in got]})
+    if r is False:
+      want = [fwd]
+    elif r is True and o is True:
+      want = [refl, fwd]
+    elif r is True and o is False:
+      want = [fwd, refl]
+    else:
+      want = None
+    if want is None:
+      problems.append(f"the order {got} is chosen without testing "
+                      f"{'`' + r_v + '`' if r is None else '`' + ov + '`'}")
+    elif got != want:
+      problems.append(f"when {case} the order is {got}, expected {want}")
+  ctx.check(not problems, "_call_binop_on_bindings:order", vu.rel, fn.lineno,
+            "operands must be tried as (x, y, op) then (y, x, rop), reversed "
+            "only when y's class overrides the reflected method: " + "; ".join(problems),
+            {"paths": shown})
+
+
 @rule("R14.3", "C14", floor=16)
 def r14_3(ctx):
   """Reflected operators."""
@@ -200,19 +276,7 @@ def r14_3(ctx):
             f"mapping construction is {shape}", {"shape": str(shape)})
   vu = get_module(ctx, "pytype/vm_utils.py")
   fn = vu.func("_call_binop_on_bindings")
-  init = [src(n.value) for n in ast.walk(fn) if isinstance(n, ast.Assign)
-          and dotted(n.targets[0]) == "options"]
-  app = [src(c.args[0]) for c in calls_in(fn) if dotted(c.func) == "options.append"]
-  rv = [c for c in calls_in(fn) if dotted(c.func) == "options.reverse"]
-  ok = init == ["[(xval, yval, name)]"] and app == ["(yval, xval, rname)"] and len(rv) == 1
-  if ok:
-    g = flow.guards_txt(vu.parent, vu.enclosing_stmt(rv[0]))
-    need = {("_overrides(yval.data.cls, xval.data.cls, rname)", True), ("rname", True)}
-    ok = need <= set(g) and all(p is False or (t, p) in need for t, p in g)
-  ctx.check(ok, "_call_binop_on_bindings:order", vu.rel, fn.lineno,
-            "operands must be tried as (x, y, op) then (y, x, rop), reversed "
-            "only when y's class overrides the reflected method",
-            {"init": init, "append": app})
+  _binop_order(ctx, vu, fn)
   rn = [src(n.value) for n in ast.walk(fn) if isinstance(n, ast.Assign)
         and dotted(n.targets[0]) == "rname"]
   ctx.check(rn == ["slots.REVERSE_NAME_MAPPING.get(name)"], "_call_binop_on_bindings:rname",
@@ -600,9 +664,12 @@ def r14_8(ctx):
   if not params:
     raise AnalysisError("constant_to_value: no constant parameter")
   pname = params[0]
+  # (a once-bound local alias of the cache attribute, `cache = self._convert_cache`,
+  # denotes the same dict: subscripts through it are cache accesses too)
+  def _cache_path(n):
+    return dotted(U.resolve_aliases(fn, n.value)) or ""
   subs = [n for n in ast.walk(fn) if isinstance(n, ast.Subscript)
-          and (dotted(n.value) or "").startswith("self.")
-          and "cache" in (dotted(n.value) or "")]
+          and _cache_path(n).startswith("self.") and "cache" in _cache_path(n)]
   if not subs:
     raise AnalysisError("constant_to_value: no `self.<cache>[key]` access found")
   from rules._pytd_schema import reaching, defs_at
@@ -745,6 +812,36 @@ def _is_recursive(mod, fn, callee):
   return any(isinstance(c, ast.Call) and dotted(c.func) in me for c in ast.walk(h))
 
 
+_OPTIONS_OLD = ("  options = [(xval, yval, name)]\n"
+                "  if rname:\n"
+                "    options.append((yval, xval, rname))\n"
+                "    if _overrides(yval.data.cls, xval.data.cls, rname):\n"
+                "      # If y is a subclass of x and defines its own reverse operator, then we\n"
+                "      # need to try y.__r{op}__ before x.__{op}__.\n"
+                "      options.reverse()\n")
+
+
+def _order_helper(ov_ret="[reflected, forward]", default="[forward, reflected]",
+                  reflected="(yval, xval, rname)",
+                  call="_binop_dispatch_order(name, rname, xval, yval)"):
+  """the try-order of _call_binop_on_bindings computed by a helper (C14-r1)."""
+  vu = "pytype/vm_utils.py"
+  return [
+      (vu, _OPTIONS_OLD, ""),
+      (vu, "  for left_val, right_val, attr_name in options:\n",
+       f"  for left_val, right_val, attr_name in {call}:\n"),
+      (vu, "def _call_binop_on_bindings(node, name, xval, yval, ctx):\n",
+       "def _binop_dispatch_order(name, rname, xval, yval):\n"
+       "  forward = (xval, yval, name)\n"
+       "  if not rname:\n"
+       "    return [forward]\n"
+       f"  reflected = {reflected}\n"
+       "  if _overrides(yval.data.cls, xval.data.cls, rname):\n"
+       f"    return {ov_ret}\n"
+       f"  return {default}\n\n\n"
+       "def _call_binop_on_bindings(node, name, xval, yval, ctx):\n")]
+
+
 B = stubs.BUILTINS
 _KEY_TODAY = ("    if pyval.__class__ is tuple:\n"
               "      type_key = tuple(type(v) for v in pyval)\n"
@@ -771,6 +868,41 @@ VARIANTS = [
      "old": "    options.append((yval, xval, rname))", "new": "    options.append((xval, yval, rname))"},
     {"name": "always-reversed", "rule": "R14.3", "file": "pytype/vm_utils.py", "expect": "fire",
      "old": "    if _overrides(yval.data.cls, xval.data.cls, rname):\n", "new": "    if True:\n"},
+    {"name": "reflected-first-when-not-overridden", "rule": "R14.3", "file": "pytype/vm_utils.py",
+     "expect": "fire",
+     "old": "    if _overrides(yval.data.cls, xval.data.cls, rname):\n",
+     "new": "    if not _overrides(yval.data.cls, xval.data.cls, rname):\n"},
+    {"name": "overrides-test-operands-swapped", "rule": "R14.3", "file": "pytype/vm_utils.py",
+     "expect": "fire",
+     "old": "    if _overrides(yval.data.cls, xval.data.cls, rname):\n",
+     "new": "    if _overrides(xval.data.cls, yval.data.cls, rname):\n"},
+    {"name": "twin-options-built-by-insert", "rule": "R14.3", "file": "pytype/vm_utils.py",
+     "expect": "silent", "old": _OPTIONS_OLD,
+     "new": "  options = [(xval, yval, name)]\n"
+            "  if rname and _overrides(yval.data.cls, xval.data.cls, rname):\n"
+            "    options.insert(0, (yval, xval, rname))\n"
+            "  elif rname:\n"
+            "    options.append((yval, xval, rname))\n"},
+    {"name": "options-built-in-unknown-way", "rule": "R14.3", "file": "pytype/vm_utils.py",
+     "expect": "error", "old": _OPTIONS_OLD,
+     "new": "  options = [(xval, yval, name)] + ([(yval, xval, rname)] if rname else [])\n"},
+    # the try-order returned by a helper with early returns (benign/C14-r1)
+    {"name": "twin-benign-C14-r1-binop-helpers", "rule": "R14.3",
+     "patch": "benign/C14-r1/patch.diff", "expect": "silent"},
+    {"name": "twin-benign-C06-r3-cache-alias", "rule": "R14.8",
+     "patch": "benign/C06-r3/patch.diff", "expect": "silent"},
+    {"name": "twin-dispatch-order-helper", "rule": "R14.3", "expect": "silent",
+     "edits": _order_helper()},
+    {"name": "order-helper-never-reflects-first", "rule": "R14.3", "expect": "fire",
+     "edits": _order_helper(ov_ret="[forward, reflected]")},
+    {"name": "order-helper-reflects-first-by-default", "rule": "R14.3", "expect": "fire",
+     "edits": _order_helper(ov_ret="[forward, reflected]", default="[reflected, forward]")},
+    {"name": "order-helper-reflected-operands-not-swapped", "rule": "R14.3", "expect": "fire",
+     "edits": _order_helper(reflected="(xval, yval, rname)")},
+    {"name": "order-helper-called-with-swapped-operands", "rule": "R14.3", "expect": "fire",
+     "edits": _order_helper(call="_binop_dispatch_order(name, rname, yval, xval)")},
+    {"name": "order-helper-drops-reflected", "rule": "R14.3", "expect": "fire",
+     "edits": _order_helper(default="[forward]")},
     {"name": "str-loses-getitem", "rule": "R14.4", "file": B, "expect": "fire",
      "old": "class list(List[_T]):", "new": "class list(object):"},
     {"name": "revert-D8-set-sub", "rule": "R14.5", "file": B, "expect": "fire",
